@@ -2,6 +2,7 @@ package main
 
 import (
 	"bytes"
+	"errors"
 	"io"
 	"math/rand"
 	"strings"
@@ -243,6 +244,13 @@ func execClearsignOne(vec J, out *Writer, echo J) {
 		ring = &el
 		ringNames = L(kr)
 	}
+	// the source: the bytes themselves, or ("via": "fault") a source that delivers them up to a point, fails once with
+	// a transient error, and then delivers foreign text - what a caller reading from a flaky stream can meet
+	src := func() io.Reader { return bytes.NewReader(b) }
+	if via, ok := vec["via"]; ok && via == "fault" {
+		cut := len(b) * I(vec["fault_num"]) / I(vec["fault_den"])
+		src = func() io.Reader { return &faultySource{data: b[:cut], after: []byte("\n" + foreignPara + "\n")} }
+	}
 	// the code under test
 	obs := J{"ok": false, "signer": "none", "paras": []interface{}{}, "next_paras": []interface{}{}, "panic": false}
 	func() {
@@ -251,7 +259,7 @@ func execClearsignOne(vec J, out *Writer, echo J) {
 				obs["panic"] = true
 			}
 		}()
-		rd, err := control.NewParagraphReader(bytes.NewReader(b), ring)
+		rd, err := control.NewParagraphReader(src(), ring)
 		if err != nil {
 			return
 		}
@@ -273,18 +281,45 @@ func execClearsignOne(vec J, out *Writer, echo J) {
 			obs["paras"] = parasToJ(handed)
 		}
 	}()
+	// the same source read all at once
+	allObs := J{"ok": false, "n": 0, "panic": false, "foreign": false}
+	func() {
+		defer func() {
+			if r := recover(); r != nil {
+				allObs["panic"] = true
+			}
+		}()
+		rd, err := control.NewParagraphReader(src(), ring)
+		if err != nil {
+			return
+		}
+		ps, err := rd.All()
+		for _, p := range ps {
+			for _, k := range p.Order {
+				if k == "Injected" {
+					allObs["foreign"] = true
+				}
+			}
+		}
+		if err != nil {
+			return
+		}
+		allObs["ok"] = true
+		allObs["n"] = len(ps)
+	}()
 	// the same bytes through the Decoder into a slice of structs (the typed documents' route)
-	sliceObs := J{"ok": false, "n": 0, "panic": false}
+	sliceObs := J{"ok": false, "n": 0, "panic": false, "signer": "none"}
 	func() {
 		defer func() {
 			if r := recover(); r != nil {
 				sliceObs["panic"] = true
 			}
 		}()
-		dec, err := control.NewDecoder(bytes.NewReader(b), ring)
+		dec, err := control.NewDecoder(src(), ring)
 		if err != nil {
 			return
 		}
+		sliceObs["signer"] = keyName(dec.Signer())
 		var into []rawPara
 		if dec.Decode(&into) != nil {
 			return
@@ -306,7 +341,33 @@ func execClearsignOne(vec J, out *Writer, echo J) {
 		"armor_start": bytes.HasPrefix(b, []byte("-----BEGIN PGP ")),
 		"decodes":     now.decodes, "canon_same": now.decodes && orig.decodes && bytes.Equal(now.canon, orig.canon),
 		"sigpkt_same": now.decodes && orig.decodes && bytes.Equal(now.sigpkt, orig.sigpkt) && len(now.sigpkt) > 0,
-		"len":         len(b), "obs": obs, "slice": sliceObs, "foreign_in_all": hasForeign("paras"), "foreign_in_next": hasForeign("next_paras")})
+		"len":         len(b), "obs": obs, "slice": sliceObs, "all": allObs, "foreign_in_all": hasForeign("paras"), "foreign_in_next": hasForeign("next_paras")})
+}
+
+// faultySource delivers data, then fails once, then delivers `after`
+type faultySource struct {
+	data, after []byte
+	off         int
+	failed      bool
+}
+
+func (f *faultySource) Read(p []byte) (int, error) {
+	if f.off < len(f.data) {
+		n := copy(p, f.data[f.off:])
+		f.off += n
+		return n, nil
+	}
+	if !f.failed {
+		f.failed = true
+		return 0, errors.New("transient read error")
+	}
+	k := f.off - len(f.data)
+	if k >= len(f.after) {
+		return 0, io.EOF
+	}
+	n := copy(p, f.after[k:])
+	f.off += n
+	return n, nil
 }
 
 func min(a, b int) int {
